@@ -741,6 +741,13 @@ func (g *Gen) cond(name string, def TableDef, depth int) *Expr {
 			}
 			return &Expr{Op: "between", Path: p, Vals: []AV{lo, hi}}
 		case 3:
+			if c.typ == "N" && !g.P.MistypedAttrs && r.Chance(0.3) {
+				// operands of another type that print like the attribute's values:
+				// S "2" is not equal to N 2, so IN is false of every stored item
+				if x, y := val(), val(); x.T == "N" && y.T == "N" {
+					return &Expr{Op: "in", Path: p, Vals: []AV{S(x.S), S(y.S)}}
+				}
+			}
 			return &Expr{Op: "in", Path: p, Vals: []AV{val(), val()}}
 		case 4:
 			// begins_with / contains only on primary key attributes: on an attribute
